@@ -145,10 +145,10 @@ type world struct {
 	sharedOpts [][]jd.Option // one slice per option set (plus two for render options), spare capacity filled with sentinels
 	optsPrint  string
 	memo       map[string]string // first result of every call signature in this history
-	c     C15Case
-	nodes []*shared // A, B
-	diffs []*shared
-	log   []string
+	c          C15Case
+	nodes      []*shared // A, B
+	diffs      []*shared
+	log        []string
 }
 
 func (w *world) addDiff(name string, live jd.Diff, ref jd.Diff) {
